@@ -53,6 +53,7 @@ type Node struct {
 	Cid    int
 	Ref    string
 	Labels []string // failure labels of a recovery expr; Label for throw
+	Many   bool     // input derivation only: repeat this * several times
 }
 
 type Rule struct {
